@@ -167,7 +167,8 @@ class Ctx:
                 program_size={c: dict(fns=len(p.fns), instances=len(p.insts), adts=len(p.adts))
                               for c, p in self.progs.items()},
                 known_findings_reported=known_hits,
-                normalisation={c: {h: sorted(set(cs)) for h, cs in sorted(getattr(p, "inlined", {}).items())} for c, p in self.progs.items()},
+                normalisation={c: dict(inlined={h: sorted(set(cs)) for h, cs in sorted(getattr(p, "inlined", {}).items())},
+                                       renamed=getattr(p, "renamed", {})) for c, p in self.progs.items()},
                 notes=self.notes,
             ),
             assumptions=self.assumptions + ([level_note] if level_note else []),
